@@ -81,7 +81,7 @@ func (fr *Frame) lookupContract(c *ssa.CallCommon) *FuncContract {
 	if key == "" {
 		return nil
 	}
-	return fr.ex.L.contracts.Funcs[key]
+	return fr.ex.L.contracts.lookup(key, fr.ex.fc.PkgPath)
 }
 
 func (fr *Frame) call(site ssa.Instruction, c *ssa.CallCommon, reach T, st *State) []T {
@@ -142,7 +142,7 @@ func (fr *Frame) call(site ssa.Instruction, c *ssa.CallCommon, reach T, st *Stat
 		}
 	}
 	key := calleeKey(c)
-	fc := ex.L.contracts.Funcs[key]
+	fc := ex.L.contracts.lookup(key, ex.fc.PkgPath)
 	name := fr.callName[site]
 	ord := fr.callOrd[site]
 	fr.ghostAt("call", ord, name, "before", reach, st, fr.argBindings(c, args))
